@@ -2,6 +2,8 @@ CONSTANTS
   Depth = 4
   EmitZero = TRUE
   DescUnits = {"Bytes", "TerabitsPerSecond"}
+  HistVals = {"v100"}
+  HistCounts = {1}
 SPECIFICATION Spec
 INVARIANT Emit
 INVARIANT UnitInv
